@@ -16,6 +16,24 @@ def content(rng, n, kind):
     return bytes([0x80] * n)
 
 
+def fill_into(h, pat, n):
+    """absorb n bytes, byte i = pat[i mod len(pat)], into the python hasher h (what updfill/hashfill/hmacfill pass in ONE call)"""
+    if not pat or n <= 0:
+        return
+    blk = pat * ((1 << 20) // len(pat) + 1)
+    q, r = divmod(n, len(blk))
+    for _ in range(q):
+        h.update(blk)
+    h.update(blk[:r])
+
+
+def fill_bytes(pat, n):
+    return (pat * (n // len(pat) + 1))[:n] if pat and n > 0 else b''
+
+
+BEYOND = ('updrepx', 'updfillx', 'hashfillx', 'hmacfillx')    # ops the extracted model and spec do not follow
+
+
 class C17(Check):
     id = 'C17'
     comp = 'Sha'
@@ -24,40 +42,69 @@ class C17(Check):
     technique = ('machine-checked proof (Coq 8.16.1) about an executable Gallina model of Sha256.cpp/Sha256.hpp (refinement to a '
                  'transcription of FIPS 180-4 / RFC 2104, by invariant + induction over histories) + differential correspondence of the '
                  'extracted model and spec with the ASan/UBSan build of the code')
-    level_text = ('Theorems in Coq (13, all closed under the global context), about the model of Sha256 (streaming update with the '
+    level_text = ('Theorems in Coq (16, all closed under the global context), about the model of Sha256 (streaming update with the '
                   '64-byte buffer, Transform with the rolling 16-word window and the rotating register file, finalize with its padding '
                   'loop, hmac on one reused hasher): Transform = the FIPS 180-4 compression function for every state and block; an '
                   'invariant "hasher p has absorbed message m" holds initially and is preserved by update for every chunk, by '
                   'finalize and by reset; for every message < 2^61 bytes and every list of chunks, finalize returns the FIPS 180-4 '
                   'digest of the concatenation and leaves a fresh hasher; the padding loop never exhausts its fuel (no length bound); '
                   'hmac = RFC 2104 for every key length and message; and for every history of update/finalize/reset/hash/hmac '
-                  'the observations of the model equal those of the spec (refinement by induction over the history). K/H0/ipad/opad '
+                  'the observations of the model equal those of the spec (refinement by induction over the history). Round 5: '
+                  'finalize_from_any_state / finalize_after_set_count / update_finalize_from_any_state - from EVERY internal state (any '
+                  'eight state words, any value c of the 64-bit counter, any buffer) finalize, also after one more update(d), computes '
+                  'the compression chain over the buffered bytes (+ d) + 0x80 + zero fill + the eight big-endian bytes of '
+                  '8 (c + |d|) mod 2^64 (known-answer Examples against an independent python compression function). K/H0/ipad/opad '
                   'are regenerated from the source on every run and proved equal to the standard. The model is tied to the code by '
                   'running the extracted model, the extracted spec and the ASan/UBSan build of the working tree on the same '
                   'histories (results, byte counter, the eight state words and the 64-byte block buffer - stale bytes included - compared '
                   'after every operation); the histories include messages of 8191, 8192, 8193 and 65575 bytes and hmac over 8192 '
-                  'hashed bytes (1 MiB in the thorough tier), so the bit-length field is exercised up to its third byte by model and spec.')
+                  'hashed bytes (1 MiB in the thorough tier), hmac keys of 0..200, 255..257, 1000, 1023..1026, 2000, 4095..4097 bytes '
+                  'and random lengths in 1025..4096, single update()/hash()/hmac() calls of 9..12 KB through model and spec and of '
+                  '2^20 + 3 / 2^24 + 5 bytes (thorough: 2^29 + 64 and 2^32 + 5 bytes in ONE call) against python hashlib, and - white '
+                  'box, against the model only - finalize()/update() from counter values around 2^29, 2^32, 2^35 ... 2^61, 2^64 - 1, '
+                  'so that all eight bytes of the bit-length field are exercised.')
     level_note = ('Trusted: Coq kernel, the FIPS 180-4 / RFC 2104 transcription (ShaSpec.v; guarded by five known-answer Examples: '
                   'FIPS "abc", RFC 4231 cases 2 and 6, HMAC with a key of exactly 64 bytes (NIST CSRC example) and of 65 bytes, '
                   'and by python hashlib/hmac in extra_checks), extraction + OCaml driver, harness, '
                   'table translator (strict: gen/tables.py, self-test tools/test_tables.py). Code-level validation of long messages: '
                   'the extracted model and spec run at ~10 KB/s, so beyond 64 KiB (1 MiB in thorough) the tie is not model/spec '
-                  'against code but python hashlib against code (stream `huge`, op updrepx: 1, 2 and 3 MiB in quick; 2^29 + 8 KiB '
-                  'and 2^32 + 4 MiB bytes in thorough - there a 32-bit `count << 3` and a 32-bit byte counter wrap); bytes 0..2 of '
-                  'the 8-byte length field (messages >= 2^37 bytes) are never non-zero in any run. Side conditions of the theorems: bytes are 0..255 and everything that is finalized is shorter '
+                  'against code but python hashlib against code: stream `huge` (op updrepx, many calls: 1, 2 and 3 MiB in quick; '
+                  '2^29 + 8 KiB and 2^32 + 4 MiB bytes in thorough) and stream `onecall` (ops updfillx / hashfillx / hmacfillx, ONE '
+                  'call whose n bytes repeat a short pattern; the harness maps one small shared-memory object repeatedly instead of '
+                  'allocating n bytes: 2^20 + 3 and 2^24 + 5 bytes, hmac key 70000 / message 2^20 + 1 in quick; 2^29 + 64 and 2^32 + 5 '
+                  'bytes in thorough). The python oracle states RESULTS only; counter, state words and buffer are private and '
+                  'compared with the model only. A 32-bit `size`, a 32-bit `count << 3` or a 32-bit byte counter therefore give a '
+                  'FAILING INPUT in the thorough tier only (a single call or a message of >= 2^29 / 2^32 bytes costs minutes under '
+                  'ASan); in the quick tier they are seen by the WHITE-BOX stream `counter`: op setcount overwrites the private member '
+                  'Sha256::count (through `#define private public` - the one place where this harness WRITES private state, an '
+                  'explicit exception to FRAMEWORK 7) with values around 2^29 ... 2^64 directly before the last update()/finalize(), '
+                  'and the digest, the counter, the state words and the buffer are compared with the model run from the same '
+                  'internal state. That is a correspondence of finalize/update from a given state (theorems finalize_from_any_state and '
+                  'update_finalize_from_any_state say what the model computes there: every byte of the length field), not an end-to-end run: the spec prints '
+                  'wildcards for such a case, a difference is reported as no-failing-input-found, and an implementation that keeps '
+                  'its counter in another representation would differ there without breaking the property. Messages of >= 2^37 '
+                  'bytes (bytes 0..2 of the length field non-zero) are reached ONLY this way; end-to-end they are out of reach of '
+                  'both tiers (30 MB/s under ASan). Not tied: a single call longer than 2^32 + 5 bytes; hmac keys or messages >= 2^32 bytes; '
+                  'aliasing of hmac\'s result with key or message. '
+                  'Side conditions of the theorems: bytes are 0..255 and everything that is finalized is shorter '
                   'than 2^61 bytes (beyond that the 64-bit bit counter of the code wraps; not reachable by a test). The theorems are '
                   'about the model; that the C++ computes what the model computes is validated by correspondence only (no clause of '
                   'the property is left unproved on the model side). RFC 4231 is a set of test vectors for RFC 2104: two of them are '
-                  'Examples, the property is the RFC 2104 definition.')
+                  'Examples, the property is the RFC 2104 definition. On a tree where nearly every case crashes or hangs a stream is '
+                  'abandoned after 150 crashed cases (or 200 s of watchdog timeouts over the run).')
     rule = ('cases = histories of update/finalize/reset/hash/hmac on one hasher; message lengths sweep the padding '
-            'boundaries (0..300), 2- and 3-way chunkings, key lengths 0..200 across the block size; a case is '
+            'boundaries (0..300), 2- and 3-way chunkings, key lengths 0..200 across the block size and long keys (255..257, 1000, '
+            '1023..1026, 2000, 4095..4097, random 1025..4096); a case is '
             'non-trivial when it absorbs at least 56 bytes (more than one padding layout) or uses hmac or reuses the '
-            'hasher after finalize/reset; long messages: 8191..8193 bytes, 64 KiB + 39 bytes (op updrep = the same chunk '
+            'hasher after finalize/reset or sets the counter (white box); long messages: 8191..8193 bytes, 64 KiB + 39 bytes (op updrep = the same chunk '
             'absorbed n times) through model and spec, 1/2/3 MiB (thorough: 2^29+, 2^32+ bytes) through op updrepx judged by '
-            'python hashlib; distinct = distinct op text')
+            'python hashlib; long single calls: ops updfill/hashfill/hmacfill (n pattern bytes in ONE call) through model and spec, '
+            '...x variants judged by python hashlib/hmac; op setcount (white box) judged by the model only; distinct = distinct op text')
     assumptions = ['message length < 2^61 bytes (bit counter of the code wraps beyond)',
                    'input bytes are in 0..255 (wf_bytes)',
-                   'FIPS 180-4 / RFC 2104 transcription in coq/Sha/ShaSpec.v (guarded by known-answer Examples)']
+                   'FIPS 180-4 / RFC 2104 transcription in coq/Sha/ShaSpec.v (guarded by known-answer Examples)',
+                   'messages >= 2^37 bytes: the code\'s finalize() is tied to the model only from a poked counter (white-box op setcount), not end-to-end',
+                   'a 32-bit size/counter slip is reported with a failing input in the thorough tier only (quick: white-box correspondence)']
 
     def gen_tables(self):
         return [tables.gen_sha()]
@@ -66,9 +113,12 @@ class C17(Check):
         tot = 0
         for l in case:
             t = l.split()
-            if l.startswith(('upd', 'hash')) and t[1] != '-':
+            if l.startswith(('updfill', 'hashfill')):
+                tot += int(t[2]) if t[1] != '-' else 0
+            elif l.startswith(('upd', 'hash')) and t[1] != '-':
                 tot += len(t[1]) // 2 * (int(t[2]) if t[0].startswith('updrep') else 1)
-        return tot >= 56 or any(l.startswith('hmac') for l in case) or sum(1 for l in case if l in ('fin', 'reset')) >= 2
+        return (tot >= 56 or any(l.startswith(('hmac', 'setcount')) for l in case)
+                or sum(1 for l in case if l in ('fin', 'reset')) >= 2)
 
     def streams(self, tier, rng):
         thorough = tier == 'thorough'
@@ -103,6 +153,53 @@ class C17(Check):
             cases.append(['updrepx %s 4100' % hexs(content(rng, 1048573, 0)), 'fin'])                # 2^32 + 4182228 bytes
         out.append(Stream('huge', cases, note='1 MiB + 5, 2 MiB, 3 MiB' + (', 2^29 + 8 KiB, 2^32 + 4 MiB' if thorough else '') +
                           ' bytes streamed through update(); results and byte counter judged by python hashlib (model and spec do not predict these)'))
+        # ONE update()/hash()/hmac() call with a long argument (the width of `size`, `keySize`, `messageSize`): ops
+        # updfill / hashfill / hmacfill pass n bytes (byte i = pattern[i mod len]) in a single call.  Through model and
+        # spec up to ~20 KB; beyond that (`...x`) python hashlib/hmac judges.  A single call of 2^32 + 5 bytes costs
+        # minutes under ASan: thorough tier only.
+        p61, p7, p64 = content(rng, 61, 0), content(rng, 7, 0), content(rng, 64, 0)
+        cases = [['updfill %s 12011' % hexs(p61), 'fin', 'upd ' + hexs(b'abc'), 'fin'],
+                 ['upd ' + hexs(content(rng, 5, 0)), 'updfill %s 9001' % hexs(p7), 'upd ' + hexs(content(rng, 70, 0)), 'fin'],
+                 ['hashfill %s 9999' % hexs(p64)],
+                 ['hmacfill %s 3000 %s 9001' % (hexs(p61), hexs(p7))],
+                 ['updfillx %s 1048579' % hexs(p61), 'fin', 'upd ' + hexs(b'abc'), 'fin'],       # 2^20 + 3 in one call
+                 ['upd ' + hexs(content(rng, 7, 0)), 'updfillx %s 16777221' % hexs(p64), 'fin'],    # 2^24 + 5 in one call
+                 ['hashfillx %s 2097153' % hexs(p7)],
+                 ['hmacfillx %s 70000 %s 1048577' % (hexs(p61), hexs(p64)),                         # long key AND long message
+                  'hmacfillx %s 65537 %s 65537' % (hexs(p7), hexs(p61))]]
+        if thorough:
+            cases.append(['upd ' + hexs(b'\x01\x02\x03'), 'updfillx %s 536870976' % hexs(p61), 'fin'])  # 2^29 + 64: bit length crosses 2^32
+            cases.append(['updfillx %s 4294967301' % hexs(p61), 'fin', 'upd ' + hexs(b'abc'), 'fin']) # 2^32 + 5 in ONE call
+            cases.append(['hmacfill %s 65537 %s 65537' % (hexs(p7), hexs(p61))])                     # through model and spec
+        out.append(Stream('onecall', cases, note='one update()/hash()/hmac() call with a long argument: 9001..12011 bytes through model and '
+                          'spec, 2^20 + 3, 2^24 + 5 bytes (hmac: key 70000, message 2^20 + 1) judged by python hashlib/hmac'
+                          + ('; 2^29 + 64 and 2^32 + 5 bytes in one update() call' if thorough else '')))
+        # WHITE BOX: the private byte counter is overwritten (op setcount, `#define private public` in the harness) in
+        # front of the last update()/finalize(), so that every byte of the 64-bit length field and the counter's
+        # crossings of 2^29 (bit length 2^32), 2^32, 2^35, ... 2^61 are exercised without hashing exabytes.  Only the
+        # MODEL predicts these cases (finalize/update from a given internal state; theorem finalize_from_any_state);
+        # the spec answers with wildcards: a difference is reported as `no-failing-input-found`.
+        cases = []
+        for k in (29, 32, 35, 37, 40, 45, 48, 53, 56, 61, 64):
+            for base in (2 ** k - 64, 2 ** k, 2 ** k + 64 * rng.randrange(1, 2 ** 20)):
+                for r in (0, rng.choice([1, 7, 31]), 55, 56, 63):
+                    if base + r >= 2 ** 64:
+                        continue
+                    cases.append(['upd ' + hexs(content(rng, 64 * rng.randrange(0, 3) + r, 0)), 'setcount %d' % (base + r),
+                                  'fin', 'upd ' + hexs(b'abc'), 'fin'])
+            # an update() that carries the counter across 2^k, then finalize
+            r = rng.randrange(64)
+            cases.append(['upd ' + hexs(content(rng, r, 0)), 'setcount %d' % (2 ** k - 64 + r),
+                          'upd ' + hexs(content(rng, rng.randrange(64 - r, 200), 0)), 'fin'] if k < 64 else
+                         ['setcount %d' % (2 ** 64 - 1), 'upd ' + hexs(content(rng, 70, 0)), 'fin'])
+        for _ in range(200 if thorough else 40):
+            c = rng.getrandbits(rng.choice([33, 40, 48, 56, 61, 61, 64]))      # all eight length bytes non-zero; any buffer position
+            ops = ['upd ' + hexs(content(rng, rng.randrange(0, 130), 0)), 'setcount %d' % c]
+            if rng.random() < 0.5:
+                ops.append('upd ' + hexs(content(rng, rng.randrange(0, 130), 0)))
+            cases.append(ops + ['fin', 'upd ' + hexs(content(rng, 3, 0)), 'fin'])
+        out.append(Stream('counter', cases, note='WHITE BOX: byte counter set (private member) to values around 2^29 ... 2^64 before the last '
+                          'update/finalize; compared with the MODEL only (all eight bytes of the length field, counter crossings)'))
         # 2-way chunkings: all split points for a set of boundary lengths (all lengths in thorough)
         cases = []
         lens = range(0, 301) if thorough else [0, 1, 54, 55, 56, 57, 63, 64, 65, 111, 119, 120, 127, 128, 129, 183, 184, 191, 192, 193, 255, 256, 300]
@@ -130,7 +227,16 @@ class C17(Check):
             key = content(rng, kl, rng.randrange(5))
             for ml in ([0, 1, 55, 64, 200] if thorough else [rng.choice([0, 1, 55, 56, 64, 119, 200])]):
                 cases.append(['hmac %s %s' % (hexs(key), hexs(content(rng, ml, 0)))])
-        out.append(Stream('hmac', cases, note='key lengths 0..200'))
+        # long keys (hashed first): around 2^8, 2^10, 2^12 and random lengths in 1025..4096; a few KiB cost < 1 s in model and spec
+        longk = [255, 256, 257, 1000, 1023, 1024, 1025, 1026, 2000, 4095, 4096, 4097] + [rng.randrange(1025, 4097) for _ in range(24 if thorough else 6)]
+        for kl in longk:
+            key = content(rng, kl, 0 if kl != 1024 else 3)
+            for ml in ([0, 64, 200] if thorough else [rng.choice([0, 1, 55, 64, 200])]):
+                cases.append(['hmac %s %s' % (hexs(key), hexs(content(rng, ml, 0)))])
+        if thorough:
+            cases.append(['hmac %s %s' % (hexs(content(rng, 16385, 0)), hexs(content(rng, 100, 0)))])
+        out.append(Stream('hmac', cases, note='key lengths 0..200, 255..257, 1000, 1023..1026, 2000, 4095..4097 and random lengths in 1025..4096'
+                          + (', 16385' if thorough else '')))
         # long histories on one hasher
         cases = []
         for _ in range(300 if thorough else 60):
@@ -166,72 +272,143 @@ class C17(Check):
         finally:
             resource.setrlimit(resource.RLIMIT_STACK, (soft, hard))
 
+    def _run_pure(self, cases, tag, args):
+        """vf.run_sharded with a time limit that also holds on a heavily loaded machine (the default, 0.05 s per case, was
+        exceeded by a 2800-case shard of the thorough tier at load 70): 60 s + 1 s per case and shard."""
+        import vf
+        n = len(cases)
+        wd = os.path.join(BUILD, self.id, 'run')
+        if n < 48:
+            return run_exe_on_cases(self.exes['model'], cases, wd, tag, args=args, timeout=600)[0]
+        from concurrent.futures import ThreadPoolExecutor
+        k = min(vf.NCPU, max(1, n // 16))
+        size = (n + k - 1) // k
+        shards = [cases[i:i + size] for i in range(0, n, size)]
+        with ThreadPoolExecutor(max_workers=k) as ex:
+            futs = [ex.submit(run_exe_on_cases, self.exes['model'], sc, wd, '%s_s%d' % (tag, j), args, 60 + len(sc))
+                    for j, sc in enumerate(shards)]
+            res = []
+            for f in futs:
+                res += f.result()[0]
+        return res
+
     def run_model(self, cases, tag='model'):
-        return self._run_slow(cases, tag, self.model_args) if self._slow(cases) else Check.run_model(self, cases, tag)
+        return self._run_slow(cases, tag, self.model_args) if self._slow(cases) else self._run_pure(cases, tag, self.model_args)
 
     def run_spec(self, cases, tag='spec'):
-        return self._run_slow(cases, tag, self.spec_args) if self._slow(cases) else Check.run_spec(self, cases, tag)
+        return self._run_slow(cases, tag, self.spec_args) if self._slow(cases) else self._run_pure(cases, tag, self.spec_args)
+
+    # Give up early on a tree where (nearly) every case crashes or hangs: a stream is run in slices of 50 cases (5 for the first slice and once a watchdog has fired); after
+    # 150 crashed cases in one stream, or 200 s spent in watchdog timeouts over the whole run, the remaining cases of the
+    # stream are not run (vf drops them and reports what it has; the first case of every stream is always run).
+    CRASH_CAP, HANG_BUDGET_S = 150, 200
+
+    @staticmethod
+    def _case_timeout(c):
+        """watchdog for one case: 10 s + 1 s per 4 MB passed to the sanitizer build (it absorbs ~30 MB/s on an idle machine)"""
+        n = 0
+        for l in c:
+            t = l.split()
+            if t[0] in ('updrep', 'updrepx'):
+                n += len(t[1]) // 2 * int(t[2])
+            elif t[0] in ('updfill', 'updfillx', 'hashfill', 'hashfillx'):
+                n += int(t[2])
+            elif t[0] in ('hmacfill', 'hmacfillx'):
+                n += int(t[2]) + int(t[4])
+        return 10 + n // 4000000
 
     def run_impl(self, cases, tag='impl'):
-        # a case that streams up to 2^32 bytes through the sanitizer build needs more than the usual 10 s watchdog
-        self.per_case_timeout = 900 if any(l.startswith('updrepx') for c in cases for l in c) else 10
-        return Check.run_impl(self, cases, tag)
+        n = len(cases)
+        res, crashes, ncr = [['! notrun'] for _ in range(n)], {}, 0
+        hung = getattr(self, '_hung_s', 0.0)
+        i = 0
+        while i < n:
+            spent = ncr >= self.CRASH_CAP or hung >= self.HANG_BUDGET_S
+            if spent and i > 0:
+                break
+            to = self._case_timeout(cases[i])
+            j = i + 1
+            width = 50 if (hung == 0 and i > 0) else 5  # a small first slice; small slices once a watchdog has fired
+            while not spent and to == 10 and j < n and j - i < width and self._case_timeout(cases[j]) == 10:
+                j += 1
+            self.per_case_timeout = to
+            r, cr = Check.run_impl(self, cases[i:j], tag)
+            res[i:j] = r
+            for k, v in cr.items():
+                crashes[i + k] = v
+                ncr += 1
+                if v[0] == 'timeout':
+                    hung += to
+            i = j
+        self._hung_s = hung
+        return res, crashes
 
     def judge(self, cases, impl_obs, spec_obs):
-        """The spec's expected observations; for cases with `updrepx` (which the extracted spec does not follow)
-        python hashlib/hmac replays the history instead: result of every op and the byte counter after it."""
+        """The spec's expected observations; for cases with an op the extracted spec does not follow (BEYOND: a message or a
+        single call too long for it) python hashlib/hmac replays the history instead and states the RESULT of every
+        call - nothing else: the byte counter, the state words and the buffer are private and belong to the
+        model/implementation correspondence only.  Cases with the white-box op `setcount` are not judged here at all
+        (the spec prints wildcards from there on)."""
         fails = []
         for (i, k, reason) in Check.judge(self, cases, impl_obs, spec_obs):
             # constant 80-character head per kind of call: vf groups reports by it (one defect = one report)
             op = cases[i][k].split(' ')[0] if k < len(cases[i]) else 'crash'
             fails.append((i, k, ('%-80s' % ('call %s: the result differs from the FIPS 180-4 / RFC 2104 reference;' % op))[:80] + ' ' + reason))
         for i, (c, o) in enumerate(zip(cases, impl_obs)):
-            if not any(l.startswith('updrepx') for l in c):
+            if not any(l.startswith(BEYOND) for l in c) or any(l.startswith('setcount') for l in c):
                 continue
-            h, n = hashlib.sha256(), 0
+            h = hashlib.sha256()
             for k, l in enumerate(c):
                 t = l.split()
                 arg = lambda j: b'' if t[j] == '-' else bytes.fromhex(t[j])
                 want = '-'
                 if t[0] == 'upd':
                     h.update(arg(1))
-                    n += len(arg(1))
                 elif t[0] in ('updrep', 'updrepx'):
                     d = arg(1)
                     for _ in range(int(t[2])):
                         h.update(d)
-                    n += len(d) * int(t[2])
+                elif t[0] in ('updfill', 'updfillx'):
+                    fill_into(h, arg(1), int(t[2]))
                 elif t[0] == 'fin':
                     want = h.hexdigest()
-                    h, n = hashlib.sha256(), 0
+                    h = hashlib.sha256()
                 elif t[0] == 'reset':
-                    h, n = hashlib.sha256(), 0
+                    h = hashlib.sha256()
                 elif t[0] == 'hash':
                     want = hashlib.sha256(arg(1)).hexdigest()
+                elif t[0] in ('hashfill', 'hashfillx'):
+                    g = hashlib.sha256()
+                    fill_into(g, arg(1), int(t[2]))
+                    want = g.hexdigest()
                 elif t[0] == 'hmac':
                     want = pyhmac.new(arg(1), arg(2), hashlib.sha256).hexdigest()
+                elif t[0] in ('hmacfill', 'hmacfillx'):
+                    g = pyhmac.new(fill_bytes(arg(1), int(t[2])), None, hashlib.sha256)
+                    fill_into(g, arg(3), int(t[4]))
+                    want = g.hexdigest()
                 got = o[k].split(' ') if k < len(o) else ['<nothing>']
-                gotn = got[2] if len(got) > 2 else '<nothing>'
-                if got[0] != want or gotn != str(n):
-                    fails.append((i, k, '%-80s op %d `%s`: expected result %s and byte counter %d, implementation gives %s and %s' % (
-                        'long message (python hashlib oracle): result or byte counter differs;', k, l[:40], want, n, got[0], gotn)))
+                if got[0] != want:
+                    fails.append((i, k, '%-80s op %d `%s`: expected result %s, implementation gives %s' % (
+                        'long message or long single call (python hashlib/hmac oracle): result differs;', k, l[:60], want, got[0])))
                     break
         return fails
 
     def extra_checks(self, tier, rng, ctx):
         """Independent search oracle (never a proof): python hashlib/hmac against the implementation."""
         cases, want = [], []
-        for _ in range(200):
-            n = rng.randrange(0, 400)
+        for j in range(200):
+            n = rng.randrange(0, 400) if j % 10 else rng.randrange(400, 70000)
             m = content(rng, n, 0)
-            k = content(rng, rng.randrange(0, 150), 0)
+            k = content(rng, rng.randrange(0, 150) if j % 4 else rng.choice([rng.randrange(150, 1025), rng.randrange(1025, 6000), 70001]), 0)
             cases.append(['hash ' + hexs(m), 'hmac %s %s' % (hexs(k), hexs(m))])
             want.append((hashlib.sha256(m).hexdigest(), pyhmac.new(k, m, hashlib.sha256).hexdigest()))
         impl, _ = self.run_impl(cases, tag='impl_py')
         for c, o, w in zip(cases, impl, want):
             got = tuple(l.split(' ')[0] for l in o[:2])
             if got != w:
-                p = self.write_replay('failing-input', 'python hashlib/hmac oracle', c, {'expected': w, 'got': got})
+                j = 0 if got[:1] != w[:1] else 1          # the call that differs, alone (hash and hmac are static: no history)
+                p = self.write_replay('failing-input', 'python hashlib/hmac oracle', [c[j]], {'expected': w[j], 'got': got[j] if j < len(got) else '<nothing>'})
                 ctx['violations'].append((p, ''))
                 break
 
